@@ -471,10 +471,48 @@ def derived_paths(g, seeds):
     return out - set(seeds)
 
 
-def opaque_tests(w, derived):
+def content_paths(g, seeds):
+    """Paths of locals that merely name a part of one of `seeds`: bound
+    (only) to an attribute chain of it - `reply = res.reply`.  A test of
+    such a value looks at the CONTENT of the classified object, it is not a
+    tag its class was mapped to."""
+    import ast as _ast
+    from ..facts import path_of
+    out = set(seeds)
+    changed = True
+    while changed:
+        changed = False
+        for n in g.of_kind('stmt'):
+            if not (isinstance(n.ast, _ast.Assign) and
+                    len(n.ast.targets) == 1 and
+                    isinstance(n.ast.targets[0], _ast.Name)):
+                continue
+            v = n.ast.value
+            base = v
+            while isinstance(base, _ast.Attribute):
+                base = base.value
+            if not isinstance(v, _ast.Attribute) or \
+                    not isinstance(base, _ast.Name):
+                continue
+            try:
+                from ..facts import canon as _canon
+                bp = _canon(base, n.frame)
+            except Exception:
+                bp = path_of(base, n.frame)
+            q = path_of(n.ast.targets[0], n.frame)
+            if (bp in out or path_of(base, n.frame) in out) and q and \
+                    q not in out:
+                out.add(q)
+                changed = True
+    return out - set(seeds)
+
+
+def opaque_tests(w, derived, content=()):
     """tests on the witness path w that look at a value computed from the
     classified one (a tag, a flag): the path may be infeasible for reasons
-    this analysis cannot see"""
+    this analysis cannot see.  Tests of the classified object's own content
+    (`reply.code == '552'` with `reply = res.reply`) are not tags: they do
+    not make the path undecidable."""
     import re as _re
     from ..facts import canon
     out = []
@@ -486,7 +524,7 @@ def opaque_tests(w, derived):
         except Exception:
             continue
         if any(_re.search(_re.escape(p) + r'(?![\w#])', text)
-               for p in derived):
+               for p in derived if p not in content):
             out.append(n)
     return out
 
@@ -1460,6 +1498,29 @@ def shared_class_state(e, module_prefixes):
             _ast.unparse(v.func).rpartition('.')[2] in (
                 'list', 'dict', 'set', 'bytearray', 'deque', 'OrderedDict',
                 'defaultdict', 'Counter', 'BlockingDeque')
+    def always_assigns(block, attr):
+        """every way through the statements binds self.<attr> (an
+        assignment under a condition only does not make the object the
+        instance's own)"""
+        for a in block:
+            if isinstance(a, (_ast.Assign, _ast.AnnAssign)):
+                tg = a.targets if isinstance(a, _ast.Assign) else [a.target]
+                for t0 in tg:
+                    for tt in (t0.elts if isinstance(
+                            t0, (_ast.Tuple, _ast.List)) else [t0]):
+                        if isinstance(tt, _ast.Attribute) and \
+                                tt.attr == attr and \
+                                isinstance(tt.value, _ast.Name) and \
+                                tt.value.id == 'self':
+                            return True
+            elif isinstance(a, _ast.If):
+                if a.orelse and always_assigns(a.body, attr) and \
+                        always_assigns(a.orelse, attr):
+                    return True
+            elif isinstance(a, (_ast.With, _ast.Try)):
+                if always_assigns(a.body, attr):
+                    return True
+        return False
     for cq, c in sorted(e.p.classes.items()):
         if not any(c.module.name == p or c.module.name.startswith(p + '.')
                    for p in module_prefixes):
@@ -1479,15 +1540,8 @@ def shared_class_state(e, module_prefixes):
                     for k in e.p.mro(uq):
                         kc = e.p.classes.get(k)
                         init = kc.methods.get('__init__') if kc else None
-                        if init is not None and any(
-                                isinstance(a, (_ast.Assign, _ast.AnnAssign))
-                                and any(isinstance(tt, _ast.Attribute) and
-                                        tt.attr == attr and
-                                        isinstance(tt.value, _ast.Name) and
-                                        tt.value.id == 'self'
-                                        for tt in (a.targets if isinstance(
-                                            a, _ast.Assign) else [a.target]))
-                                for a in walk_own(init.node)):
+                        if init is not None and always_assigns(
+                                init.node.body, attr):
                             own = True
                             break
                     if own:
